@@ -166,7 +166,8 @@ def run(ctx):
             x2 = x.copy().ravel()
             for j in range(size):
                 if j != k and rng.random() < 0.8:
-                    x2[j] = rng.uniform(0.3, 3) if rng.random() < 0.9 else -1.0
+                    # ordinary values, a point outside the domain of log / sqrt, or a huge but finite one (every step vanishes next to it)
+                    x2[j] = rng.uniform(0.3, 3) if rng.random() < 0.8 else rng.choice([-1.0, 1e16, 2e16, -1e16, 3e12, 1e300])
             b, ib = D(x2.reshape(shape))
             s, is_ = D(float(x.ravel()[k]))
             # ... and a second element alone, through the same object (the elements of an array evaluated one after another)
